@@ -729,7 +729,9 @@ fn oracle(c: &Case, o: &Outcome, cap: usize) -> Option<(String, String)> {
                     "{} stream of {} frames, subscriber {} (attached early, read late): {} frames from seq {} on were skipped silently - the receiver overflowed the {}-frame channel and the handler swallows RecvError::Lagged; body = 0..{} then the last {} frames",
                     c.kind.name(), n, i + 1, n as usize - seqs.len(), first_missing, cap, first_missing, n - first_missing - (n - seqs.len() as u64)
                 ),
-                "frames_skipped_after_lag".into(),
+                // the class names the capacity: the known finding is "lag beyond 16384 pending frames"; the same loss with
+                // a smaller channel is a different (unknown) class
+                format!("frames_skipped_after_lag_cap{cap}"),
             ));
         }
         if *seqs != want {
@@ -1009,7 +1011,7 @@ fn main() {
             // shrink the schedule prefix while the same class keeps failing
             let base = c.clone();
             let cls = class.clone();
-            let sched = if c.sched.len() <= 60 && class != "frames_skipped_after_lag" {
+            let sched = if c.sched.len() <= 60 && !class.starts_with("frames_skipped_after_lag") {
                 shrink_vec(c.sched.clone(), |s| {
                     let mut cc = base.clone();
                     cc.sched = s.to_vec();
